@@ -87,6 +87,11 @@ CLAIMS = {
             'shared source first positions it absolutely at the offset of the requested entry and propagates a failed seek; seek(Start) of each layer '
             'rewrites every position-dependent field (frozen, reviewed field lists) with a decompressor / chunk loaded in the same call; an open '
             'ArchiveFile exclusively borrows the reader (compile-fail witnesses with compiling twins). Equality of returned bytes along a history is not decided.'),
+    'C15': (TECH_GROWTH, '§4 C15',
+            'Decides that no container on a streaming path (writer data methods, layer Read/Write impls, repair, linear extraction) grows with the number '
+            'of bytes streamed: every growth or sized-allocation site is either bounded by a named constant (interval analysis incl. take() limits) or '
+            'classified per file / per run / per 4 MiB block (4 bytes, noted exception) / bounded buffer; an unclassified site is a violation. The number '
+            'of bytes actually in use and dependency allocators are not decided.'),
 }
 
 NOT_APPLICABLE = {
